@@ -4,6 +4,7 @@ from __future__ import annotations
 
 import itertools
 import random
+import shutil
 import warnings
 from collections import Counter
 
@@ -37,7 +38,8 @@ VOCAB = VOCAB12 + [
     "Surface Area", "areas", "tim", "idd", "parent_idx", "seg_ids", "a", "b",
 ]
 EDGE_VOCAB = ["iou", "IoU", "IOU", "overlap", "iou_1", "score", "weight", "io", "Iou", "u"]
-REQUIRED = [["time"], ["time", "id", "parent_id"]]
+REQUIRED = [["time"], ["time", "id", "parent_id"], ["time", "area"], ["time", "pos"],
+            ["time", "id", "parent_id", "seg_id"], ["time", "track_id", "iou"]]
 
 
 class PostBroken(Exception):
@@ -197,6 +199,60 @@ def run_builder_case(rng, acc):
                        "ndim": None}})
 
 
+def run_geff_builder_case(rng, acc, wd):
+    """A GEFF store whose edges carry properties, some spelled like node properties or like
+    display names: GeffTracksBuilder.prepare() must use every node property and every edge
+    property exactly once in its two maps."""
+    import geff
+    import networkx as nx
+
+    from funtracks.import_export import GeffTracksBuilder
+
+    contracted()
+    ncols = [c for c in rng.sample(VOCAB, rng.randint(2, 6)) if c not in ("t", "y", "x")]
+    ecols = rng.sample(EDGE_VOCAB, rng.randint(1, 4))
+    if ncols and rng.random() < 0.5:
+        ecols.append(rng.choice(ncols))  # same name on nodes and on edges
+    ecols = list(dict.fromkeys(ecols))
+    g = nx.DiGraph()
+    for i in range(1, 4):
+        g.add_node(i, t=i - 1, y=float(i), x=float(i), **{c: float(i) for c in ncols})
+    g.add_edge(1, 2, **{c: 0.5 for c in ecols})
+    g.add_edge(2, 3, **{c: 0.25 for c in ecols})
+    d = wd / "b.zarr"
+    if d.exists():
+        shutil.rmtree(d)
+    try:
+        with warnings.catch_warnings():
+            warnings.simplefilter("ignore")
+            geff.write(g, d, axis_names=["t", "y", "x"], axis_types=["time", "space", "space"])
+            b = GeffTracksBuilder()
+            b.prepare(d)
+    except PostBroken:
+        return
+    except Exception:
+        acc["counters"]["geff-builder-not-prepared"] = \
+            acc["counters"].get("geff-builder-not-prepared", 0) + 1
+        return
+    acc["evaluations"] += 1
+    acc["counters"]["geff-builder-cases"] = acc["counters"].get("geff-builder-cases", 0) + 1
+    allnode = ["t", "y", "x"] + ncols
+    for kind, cols, res in (("node", allnode, dict(b.node_name_map or {})),
+                            ("edge", ecols, dict(b.edge_name_map or {}))):
+        used = Counter(flatten(res))
+        if used != Counter(cols):
+            acc["violations"].append({
+                "clause": "every-column-once",
+                "key": f"C17/geff-builder/{kind}/" + ("lost" if any(used[c] == 0 for c in cols)
+                                                      else "duplicated-or-foreign"),
+                "what": f"GEFF store with node properties {allnode} and edge properties "
+                        f"{ecols}: {kind} map {res}; unused "
+                        f"{[c for c in cols if used[c] == 0]}",
+                "replay": {"kind": "geff-builder", "ncols": ncols, "ecols": ecols,
+                           "cols": cols, "required": [], "ndim": None}})
+            return
+
+
 def plan(tier, seed):
     maxlen = 4 if tier == "quick" else 5
     specs = []
@@ -224,7 +280,7 @@ def run_shard(spec):
                 idx += 1
                 if idx % spec["parts"] != spec["part"]:
                     continue
-                req = REQUIRED[idx % 2]
+                req = REQUIRED[idx % len(REQUIRED)]
                 ndim = [3, 4, None][idx % 3]
                 run_case("node", cols, req, ndim, acc)
                 n += 1
@@ -234,10 +290,15 @@ def run_shard(spec):
         acc["extra"]["exhaustive_space"] = (
             f"all ordered selections of <= {spec['maxlen']} names from {VOCAB12}")
     else:
+        from .. import env
+
+        wd = env.workdir("c17")
         rng = random.Random(spec["seed"])
         for i in range(spec["n"]):
             if i % 20 == 0:
                 run_builder_case(rng, acc)
+            if i % 40 == 10:
+                run_geff_builder_case(rng, acc, wd)
             if rng.random() < 0.8:
                 k = rng.randint(0, 12)
                 cols = rng.sample(VOCAB, k)
@@ -252,6 +313,8 @@ def run_shard(spec):
                     acc["counters"].get("random-edge-lists", 0) + 1
             if len(acc["violations"]) > 40:
                 break
+    if spec["kind"] != "exhaustive":
+        shutil.rmtree(wd, ignore_errors=True)
     acc["counters"]["contract-evaluations"] = STATS["evals"]
     # keep one violation per mechanism key and input size (smallest witnesses first)
     acc["violations"].sort(key=lambda v: len(v["replay"]["cols"]))
@@ -271,7 +334,7 @@ def run_shard(spec):
 def floors(tier):
     return {"exhaustive-lists": 13000 if tier == "quick" else 100000,
             "random-node-lists": 10000, "random-edge-lists": 2000,
-            "contract-evaluations": 20000, "builder-reuse-cases": 500}
+            "contract-evaluations": 20000, "builder-reuse-cases": 500, "geff-builder-cases": 200}
 
 
 def replay(doc):
